@@ -2,7 +2,7 @@
 import ast
 
 from .core import Untranslatable
-from . import py2gallina as pg
+from . import py2gallina as pg, symex as X
 
 # variable numbering (tensor / mask / scalar namespaces are separate in the Coq semantics)
 TVARS = {"kspace": 0, "masked_kspace": 0, "input_kspace": 0, "image": 1, "input_image": 1, "x": 1, "sensitivity_map": 2, "data": 0}
@@ -10,142 +10,135 @@ MVARS = {"sampling_mask": 0, "mask": 0, "mask_func": 0, "padding": 1}
 SVARS = {"loglikelihood_scaling": 0, "lambd": 1}
 
 
-class OpT:
-    def __init__(self, path, env=None, inline=None):
+S = lambda n: ("sym", n)
+SELF = S("self")
+
+
+class OpV:
+    """Value trees of a symbolic execution (vlib/symex.py) -> operator-expression IR. Local names, intermediates and
+    helpers of the source do not appear in the value trees, so they do not matter here."""
+
+    def __init__(self, path):
         self.path = path
-        self.env = dict(env or {})  # local name -> oexp string
-        self.inline = inline or {}  # method name -> (params, body term builder)
 
-    def fail(self, node, why):
-        raise Untranslatable("operator IR: %s: %s" % (why, ast.unparse(node)[:80]), getattr(node, "lineno", None), self.path)
+    def fail(self, v, why):
+        raise Untranslatable("operator IR: %s: %s" % (why, X.show(v)[:100]), None, self.path)
 
-    def mask(self, node):
-        nm = ast.unparse(node)
-        if nm in self.env and self.env[nm].startswith("MASK:"):
-            return self.env[nm][5:]
-        if nm in MVARS:
-            return str(MVARS[nm])
-        self.fail(node, "mask expression is not a mask input")
+    def mask(self, v):
+        if v[0] == "sym" and v[1] in MVARS:
+            return str(MVARS[v[1]])
+        self.fail(v, "mask expression is not a mask input")
 
-    def zero_tensor(self, node):
-        s = ast.unparse(node)
-        return s.startswith("torch.tensor([0.0]") or s in ("0", "0.0")
+    def scalar(self, v):
+        """Index of a scalar input, looking through reshapes; the constant-one tensor used when no scaling is given
+        stands for the same scalar (both paths must give the same term)."""
+        while v[0] == "call" and v[1][0] == "attr" and v[1][2] in ("reshape", "view", "to"):
+            v = v[1][1]
+        if v[0] == "sym" and v[1] in SVARS:
+            return SVARS[v[1]]
+        if v[0] == "call" and v[1] == ("attr", S("torch"), "tensor") and v[2][:1] == (("list", (X.const(1.0),)),):
+            return SVARS["loglikelihood_scaling"]
+        return None
 
-    def t(self, node):
-        src = ast.unparse(node)
-        if isinstance(node, ast.Name):
-            if node.id in self.env:
-                v = self.env[node.id]
-                if v.startswith("MASK:") or v.startswith("SCALAR:"):
-                    self.fail(node, "mask/scalar used as tensor")
-                return v
-            if node.id in TVARS:
-                return "(OVar %d)" % TVARS[node.id]
-            self.fail(node, "unknown tensor name")
-        if isinstance(node, ast.Call):
-            fn = ast.unparse(node.func)
-            kws = {k.arg: k.value for k in node.keywords}
-            if fn == "torch.where" and len(node.args) == 3:
-                c = node.args[0]
-                if isinstance(c, ast.Compare) and len(c.ops) == 1 and isinstance(c.ops[0], ast.Eq) and self.zero_tensor(node.args[1]):
-                    rhs = ast.unparse(c.comparators[0])
-                    if rhs == "0":
-                        return "(OWhere0 %s %s)" % (self.mask(c.left), self.t(node.args[2]))
-                    if rhs == "1":
-                        return "(OWherePad %s %s)" % (self.mask(c.left), self.t(node.args[2]))
-                self.fail(node, "torch.where outside subset")
-            if fn in ("T.apply_mask", "apply_mask"):
-                rm = kws.get("return_mask")
-                if len(node.args) != 2 or rm is None or ast.unparse(rm) != "False":
-                    self.fail(node, "apply_mask call must be apply_mask(E, mask, return_mask=False)")
-                return self.call_inlined("apply_mask", node.args)
-            if fn in ("self.forward_operator", "self.backward_operator"):
-                if len(node.args) != 1 or set(kws) != {"dim"} or ast.unparse(kws["dim"]) != "self._spatial_dims":
-                    self.fail(node, "operator call must be op(E, dim=self._spatial_dims)")
-                return "(%s %s)" % ("OFwd" if "forward" in fn else "OBwd", self.t(node.args[0]))
-            if fn in ("T.expand_operator", "expand_operator"):
-                if len(node.args) != 2 or ast.unparse(kws.get("dim", ast.Constant(None))) != "self._coil_dim":
-                    self.fail(node, "expand_operator call outside subset")
-                return "(OExpand %s %s)" % (self.t(node.args[0]), self.t(node.args[1]))
-            if fn in ("T.reduce_operator", "reduce_operator"):
-                if len(node.args) != 2 or ast.unparse(kws.get("dim", ast.Constant(None))) != "self._coil_dim":
-                    self.fail(node, "reduce_operator call outside subset")
-                return "(OReduce %s %s)" % (self.t(node.args[0]), self.t(node.args[1]))
-            if fn in ("T.complex_multiplication", "complex_multiplication") and len(node.args) == 2:
-                a, b = node.args
-                # S * x.unsqueeze(coil): coil expansion
-                if isinstance(b, ast.Call) and ast.unparse(b.func).endswith(".unsqueeze") and ast.unparse(b.args[0]) in ("1", "self._coil_dim"):
-                    return "(OExpand %s %s)" % (self.t(b.func.value), self.t(a))
-                self.fail(node, "complex_multiplication outside subset")
-            if fn.endswith(".sum") and len(node.args) == 1 and ast.unparse(node.args[0]) == "self._coil_dim":
-                inner = node.func.value
-                if isinstance(inner, ast.Call) and ast.unparse(inner.func) in ("T.complex_multiplication", "complex_multiplication"):
-                    a, b = inner.args
-                    if isinstance(a, ast.Call) and ast.unparse(a.func) in ("T.conjugate", "conjugate"):
-                        return "(OReduce %s %s)" % (self.t(b), self.t(a.args[0]))
-                self.fail(node, "coil sum outside subset")
-            if fn.endswith(".permute"):
-                tag = {"(0, 2, 3, 1)": 1, "(0, 3, 1, 2)": 2}.get("(" + ", ".join(ast.unparse(a) for a in node.args) + ")")
+    def zero_tensor(self, v):
+        while v[0] == "call" and v[1][0] == "attr" and v[1][2] == "to":
+            v = v[1][1]
+        return v in (X.const(0), X.const(0.0)) or (v[0] == "call" and v[1] == ("attr", S("torch"), "tensor") and v[2][:1] in ((("list", (X.const(0.0),)),), (X.const(0.0),)))
+
+    def t(self, v):
+        if v[0] == "sym":
+            if v[1] in TVARS:
+                return "(OVar %d)" % TVARS[v[1]]
+            self.fail(v, "unknown tensor name")
+        if v[0] == "call":
+            f, args, kw = v[1], v[2], dict(v[3])
+            if f == ("attr", S("torch"), "where") and len(args) == 3 and not kw:
+                c = args[0]
+                if c[0] == "cmp" and c[1] == "==" and self.zero_tensor(args[1]):
+                    if c[3] in (X.const(0), X.const(0.0)):
+                        return "(OWhere0 %s %s)" % (self.mask(c[2]), self.t(args[2]))
+                    if c[3] in (X.const(1), X.const(1.0)):
+                        return "(OWherePad %s %s)" % (self.mask(c[2]), self.t(args[2]))
+                self.fail(v, "torch.where outside subset")
+            if f in (("attr", SELF, "forward_operator"), ("attr", SELF, "backward_operator")):
+                if len(args) != 1 or kw != {"dim": ("attr", SELF, "_spatial_dims")}:
+                    self.fail(v, "operator call must be op(E, dim=self._spatial_dims)")
+                return "(%s %s)" % ("OFwd" if "forward" in f[2] else "OBwd", self.t(args[0]))
+            coil = (("attr", SELF, "_coil_dim"), X.const(1))
+            if f in (("attr", S("T"), "expand_operator"), S("expand_operator")):
+                if len(args) != 2 or kw.get("dim") not in coil:
+                    self.fail(v, "expand_operator call outside subset")
+                return "(OExpand %s %s)" % (self.t(args[0]), self.t(args[1]))
+            if f in (("attr", S("T"), "reduce_operator"), S("reduce_operator")):
+                if len(args) != 2 or kw.get("dim") not in coil:
+                    self.fail(v, "reduce_operator call outside subset")
+                return "(OReduce %s %s)" % (self.t(args[0]), self.t(args[1]))
+            cmul = (("attr", S("T"), "complex_multiplication"), S("complex_multiplication"))
+            if f in cmul and len(args) == 2 and not kw:
+                a, b = args
+                if b[0] == "call" and b[1][0] == "attr" and b[1][2] == "unsqueeze" and (list(b[2]) + [dict(b[3]).get("dim")])[0] in coil:
+                    return "(OExpand %s %s)" % (self.t(b[1][1]), self.t(a))
+                self.fail(v, "complex_multiplication outside subset")
+            if f[0] == "attr" and f[2] == "sum" and (list(args) + [kw.get("dim")])[0] in coil:
+                inner = f[1]
+                if inner[0] == "call" and inner[1] in cmul and len(inner[2]) == 2:
+                    a, b = inner[2]
+                    if a[0] == "call" and a[1] in (("attr", S("T"), "conjugate"), S("conjugate")) and len(a[2]) == 1:
+                        return "(OReduce %s %s)" % (self.t(b), self.t(a[2][0]))
+                self.fail(v, "coil sum outside subset")
+            if f[0] == "attr" and f[2] == "permute" and not kw:
+                perm = args[0][1] if len(args) == 1 and args[0][0] in ("tuple", "list") else args
+                tag = {(0, 2, 3, 1): 1, (0, 3, 1, 2): 2}.get(tuple(x[1] if X.is_const(x) else None for x in perm))
                 if tag is None:
-                    self.fail(node, "permute outside subset")
-                return "(OLayout %d %s)" % (tag, self.t(node.func.value))
-            if fn.startswith("self.") and fn[5:] in self.inline:
-                return self.call_inlined(fn[5:], node.args)
-            self.fail(node, "call outside subset")
-        if isinstance(node, ast.BinOp):
-            if isinstance(node.op, ast.Sub):
-                return "(OSub %s %s)" % (self.t(node.left), self.t(node.right))
-            if isinstance(node.op, ast.Add):
-                return "(OAdd %s %s)" % (self.t(node.left), self.t(node.right))
-            if isinstance(node.op, ast.Mult):
-                l = ast.unparse(node.left)
-                if l in SVARS or (l in self.env and self.env[l].startswith("SCALAR:")):
-                    sv = SVARS[l] if l in SVARS else int(self.env[l][7:])
-                    return "(OScale %d %s)" % (sv, self.t(node.right))
-            self.fail(node, "binary operation outside subset")
-        self.fail(node, "expression outside subset")
-
-    def call_inlined(self, name, args):
-        params, term = self.inline[name]
-        if len(args) != len(params):
-            raise Untranslatable("operator IR: arity mismatch inlining %s" % name, None, self.path)
-        sub = OpT(self.path, {}, self.inline)
-        for p, a in zip(params, args):
-            if p in MVARS:
-                sub.env[p] = "MASK:" + self.mask(a)
-            elif p in SVARS:
-                sub.env[p] = "SCALAR:%d" % (SVARS[ast.unparse(a)] if ast.unparse(a) in SVARS else int(self.env[ast.unparse(a)][7:]))
-            else:
-                sub.env[p] = self.t(a)
-        return term(sub)
+                    self.fail(v, "permute outside subset")
+                return "(OLayout %d %s)" % (tag, self.t(f[1]))
+            self.fail(v, "call outside subset")
+        if v[0] == "bin":
+            if v[1] == "-":
+                return "(OSub %s %s)" % (self.t(v[2]), self.t(v[3]))
+            if v[1] == "+":
+                return "(OAdd %s %s)" % (self.t(v[2]), self.t(v[3]))
+            if v[1] == "*":
+                for sc, te in ((v[2], v[3]), (v[3], v[2])):
+                    k = self.scalar(sc)
+                    if k is not None:
+                        return "(OScale %d %s)" % (k, self.t(te))
+            self.fail(v, "binary operation outside subset")
+        self.fail(v, "expression outside subset")
 
 
-def body_term(fn_node, path, inline=None, env=None, skip=(), if_rules=None):
-    """Translate a function body made of local assignments and a final return into one oexp string.
+def _apply_mask_hook(ctx):
+    """T.apply_mask(E, mask, return_mask=False) in another module is executed in place: the masked k-space it returns."""
+    path = ctx.src("direct/data/transforms.py")
+    tree, _ = pg.parse_file(path)
 
-    if_rules: {unparsed test: "body" | "skip"} - how to treat `if` statements (anything else is refused)."""
-    tr = OpT(path, env, inline)
-    stmts = list(pg.strip_doc(fn_node.body))
-    while stmts:
-        s = stmts.pop(0)
-        src = ast.unparse(s)
-        if any(src.startswith(p) for p in skip):
+    def hook(args, kwargs):
+        kw = dict(kwargs)
+        if len(args) != 2 or kw.get("return_mask") != X.FALSE or set(kw) != {"return_mask"}:
+            return None
+        tensor_test = ("call", S("isinstance"), (args[1], ("attr", S("torch"), "Tensor")), ())
+        t, _n = X.run_function(tree, path, "apply_mask", args={"kspace": args[0], "mask_func": args[1], "return_mask": X.FALSE}, assume=[(tensor_test, True)])
+        t = X.prune_raises(X.drop_do(t))
+        if t is None or t[0] != "ret":
+            raise Untranslatable("apply_mask: the masked k-space depends on a branch", None, path)
+        return t[1]
+
+    return hook
+
+
+def _term(ctx, tree, path, qualname, hooks, select=None):
+    """The operator term of a method: the value it returns on the selected paths (all paths must agree)."""
+    t, _n = X.run_function(tree, path, qualname, callhooks=hooks)
+    t = X.lift_ife(X.prune_raises(X.drop_do(t)))
+    tr = OpV(path)
+    forms = set()
+    for conds, lf in X.leaves(t):
+        if select is not None and not select(conds):
             continue
-        if isinstance(s, ast.If):
-            rule = (if_rules or {}).get(ast.unparse(s.test))
-            if rule == "skip":
-                continue
-            if rule == "body":
-                stmts = list(s.body) + stmts
-                continue
-            raise Untranslatable("operator IR: conditional outside subset: if %s" % ast.unparse(s.test)[:60], s.lineno, path)
-        if isinstance(s, ast.Assign) and len(s.targets) == 1 and isinstance(s.targets[0], ast.Name):
-            tr.env[s.targets[0].id] = tr.t(s.value)
-        elif isinstance(s, ast.Return):
-            return tr.t(s.value)
-        else:
-            raise Untranslatable("operator IR: statement outside subset: %s" % src[:70], s.lineno, path)
-    raise Untranslatable("operator IR: no return", fn_node.lineno, path)
+        forms.add(tr.t(lf[1]))
+    if len(forms) != 1:
+        raise Untranslatable("operator IR: %s: the result differs between paths (or no path selected): %s" % (qualname, sorted(forms)[:2]), None, path)
+    return forms.pop()
 
 
 def standard_terms(ctx):
@@ -153,72 +146,82 @@ def standard_terms(ctx):
     terms = {}
     path = ctx.src("direct/data/transforms.py")
     tree, _ = pg.parse_file(path)
-    # apply_mask: the torch.where expression, and the mask used when a callable is given
-    fn = pg.find_def(tree, "apply_mask", path)
-    body = pg.strip_doc(fn.body)
-    srcs = [ast.unparse(x) for x in body]
-    want_if = "if not isinstance(mask_func, torch.Tensor):\n    shape = np.array(kspace.shape)[1:]\n    mask = mask_func(shape=shape, seed=seed)\nelse:\n    mask = mask_func"
-    if srcs[0] != "assert_complex(kspace, complex_last=True)" or srcs[1] != want_if or len(body) != 5 or srcs[3] != "if not return_mask:\n    return masked_kspace" or srcs[4] != "return (masked_kspace, mask)":
-        raise Untranslatable("apply_mask: body outside subset", fn.lineno, path)
-    where_ast = body[2].value
-    if ast.unparse(body[2].targets[0]) != "masked_kspace":
-        raise Untranslatable("apply_mask: expected masked_kspace = torch.where(...)", body[2].lineno, path)
-    inline = {"apply_mask": (["kspace", "mask"], lambda sub: sub.t(where_ast))}
-    top = OpT(path, {"mask": "MASK:0"}, inline)
-    terms["apply_mask_t"] = top.t(where_ast)
-    fn = pg.find_def(tree, "apply_padding", path)
-    body = pg.strip_doc(fn.body)
-    if ast.unparse(body[0]) != "if padding is None:\n    return data" or len(body) != 2 or not isinstance(body[1], ast.Return):
-        raise Untranslatable("apply_padding: body outside subset", fn.lineno, path)
-    terms["apply_padding_t"] = OpT(path, {}, inline).t(body[1].value)
-    # ApplyMaskModule.forward
+    tr = OpV(path)
+    # apply_mask with a tensor mask: the masked k-space, alone or with the mask it was given
+    tensor_test = ("call", S("isinstance"), (S("mask_func"), ("attr", S("torch"), "Tensor")), ())
+    t, _n = X.run_function(tree, path, "apply_mask", assume=[(tensor_test, True)])
+    t = X.prune_raises(X.drop_do(t))
+    forms = set()
+    for conds, lf in X.leaves(t):
+        v = lf[1]
+        if v[0] == "tuple":
+            if len(v[1]) != 2 or v[1][1] != S("mask_func"):
+                raise Untranslatable("apply_mask: the mask returned is not the mask given", None, path)
+            v = v[1][0]
+        forms.add(tr.t(v))
+    if len(forms) != 1:
+        raise Untranslatable("apply_mask: the masked k-space differs between return_mask settings", None, path)
+    terms["apply_mask_t"] = forms.pop()
+    # ... and with a mask function: called once as mask_func(shape=kspace.shape[1:], seed=seed), its result used and returned
+    t, _n = X.run_function(tree, path, "apply_mask", assume=[(tensor_test, False)])
+    t = X.prune_raises(X.drop_do(t))
+    gen = [n for n in X.find_nodes(t, lambda v: v[0] == "call" and v[1] == S("mask_func"))]
+    shp = ("sub", ("call", ("attr", S("np"), "array"), (("attr", S("kspace"), "shape"),), ()), ("slice", X.const(1), X.NONE, X.NONE))
+    if len(set(gen)) != 1 or gen[0][2] or dict(gen[0][3]) != {"shape": shp, "seed": S("seed")}:
+        raise Untranslatable("apply_mask: a mask function is not called as mask_func(shape=np.array(kspace.shape)[1:], seed=seed)", None, path)
+    for conds, lf in X.leaves(t):
+        v = lf[1]
+        if v[0] == "tuple" and v[1][1] != gen[0]:
+            raise Untranslatable("apply_mask: the mask returned is not the generated one", None, path)
+    hooks = {("attr", S("T"), "apply_mask"): _apply_mask_hook(ctx), S("apply_mask"): _apply_mask_hook(ctx)}
+    terms["apply_padding_t"] = _term(ctx, tree, path, "apply_padding", hooks, select=lambda conds: all(not (c == ("cmp", "is", S("padding"), X.NONE) and pol) for c, pol in conds))
+    # ApplyMaskModule.forward: the target k-space is apply_mask(input k-space, sampling mask)
     path2 = ctx.src("direct/data/mri_transforms.py")
     tree2, _ = pg.parse_file(path2)
-    fn = pg.find_def(tree2, "ApplyMaskModule.forward", path2)
-    call = None
-    stored = False
-    for st in pg.strip_doc(fn.body):
-        src = ast.unparse(st)
-        if src == "target_kspace, _ = T.apply_mask(input_kspace, sampling_mask)":
-            call = st.value
-        elif src == "sample[self.target_kspace_key] = target_kspace":
-            stored = True
-        elif src.startswith("input_kspace = sample[self.input_kspace_key]") or src.startswith("sampling_mask = sample[self.sampling_mask_key]") or src.startswith("if self.") or src == "return sample":
-            continue
-        else:
-            raise Untranslatable("ApplyMaskModule.forward: statement outside subset: %s" % src[:60], st.lineno, path2)
-    if call is None or not stored:
-        raise Untranslatable("ApplyMaskModule.forward: masked k-space is not apply_mask(input_kspace, sampling_mask)", fn.lineno, path2)
-    terms["apply_mask_module_t"] = OpT(path2, {}, inline).call_inlined("apply_mask", call.args)
+    t, _n = X.run_function(tree2, path2, "ApplyMaskModule.forward", callhooks=hooks)
+    t = X.lift_ife(X.prune_raises(X.drop_do(t)))
+    forms = set()
+    sample = S("sample")
+    for conds, lf in X.leaves(t):
+        v = lf[1]
+        if not (v[0] == "set" and v[1] == sample and v[2] == ("attr", SELF, "target_kspace_key")):
+            raise Untranslatable("ApplyMaskModule.forward: does not return the sample with the target k-space set: %s" % X.show(v)[:80], None, path2)
+        w = v[3]
+        # `masked, _ = T.apply_mask(k, m)` (first of the pair) or `T.apply_mask(k, m, return_mask=False)`
+        if w[0] == "sub" and w[2] == X.const(0) and w[1][0] == "call" and w[1][1] == ("attr", S("T"), "apply_mask"):
+            call = w[1]
+            if dict(call[3]).get("return_mask", X.TRUE) != X.TRUE or len(call[2]) != 2:
+                raise Untranslatable("ApplyMaskModule.forward: apply_mask call outside subset", None, path2)
+            w = hooks[S("apply_mask")](call[2], (("return_mask", X.FALSE),))
+        subst = {("sub", sample, ("attr", SELF, "input_kspace_key")): S("kspace"), ("sub", sample, ("attr", SELF, "sampling_mask_key")): S("sampling_mask")}
+        forms.add(OpV(path2).t(_subst(w, subst)))
+    if len(forms) != 1:
+        raise Untranslatable("ApplyMaskModule.forward: the target k-space differs between paths", None, path2)
+    terms["apply_mask_module_t"] = forms.pop()
     # engine operators
     path3 = ctx.src("direct/nn/mri_models.py")
     tree3, _ = pg.parse_file(path3)
-    terms["fwd_op_t"] = body_term(pg.find_def(tree3, "MRIModelEngine._forward_operator", path3), path3, inline)
-    terms["bwd_op_t"] = body_term(pg.find_def(tree3, "MRIModelEngine._backward_operator", path3), path3, inline)
-    # RIM likelihood gradient
+    terms["fwd_op_t"] = _term(ctx, tree3, path3, "MRIModelEngine._forward_operator", hooks)
+    terms["bwd_op_t"] = _term(ctx, tree3, path3, "MRIModelEngine._backward_operator", hooks)
+    # RIM likelihood gradient (with sensitivity maps; with and without a scaling: the same term)
     path4 = ctx.src("direct/nn/rim/rim.py")
     tree4, _ = pg.parse_file(path4)
-    rules = {"loglikelihood_scaling is not None": "skip", "sensitivity_map is not None": "body"}
-    terms["loglik_t"] = body_term(pg.find_def(tree4, "MRILogLikelihood.forward", path4), path4, inline, skip=("loglikelihood_scaling = ",), if_rules=rules)
+    no_maps = ("cmp", "is", S("sensitivity_map"), X.NONE)
+    have_maps = ("cmp", "isnot", S("sensitivity_map"), X.NONE)
+    terms["loglik_t"] = _term(ctx, tree4, path4, "MRILogLikelihood.forward", hooks, select=lambda conds: all(not ((c == no_maps and pol) or (c == have_maps and not pol)) for c, pol in conds))
     # conjugate-gradient operators
     path5 = ctx.src("direct/nn/conjgradnet/conjgrad.py")
     tree5, _ = pg.parse_file(path5)
-    astar = pg.find_def(tree5, "ConjGrad._A_star_op", path5)
-    terms["a_star_t"] = body_term(astar, path5, inline)
-    inl2 = dict(inline)
-    astar_ret = pg.strip_doc(astar.body)[-1].value
-    inl2["_A_star_op"] = (["kspace", "sensitivity_map", "sampling_mask"], lambda sub: sub.t(astar_ret))
-    asa = pg.find_def(tree5, "ConjGrad._A_star_A_op", path5)
-    terms["a_star_a_t"] = body_term(asa, path5, inl2)
-    asa_body = pg.strip_doc(asa.body)
-
-    def asa_builder(sub):
-        for st in asa_body[:-1]:
-            sub.env[st.targets[0].id] = sub.t(st.value)
-        return sub.t(asa_body[-1].value)
-
-    inl3 = dict(inl2)
-    inl3["_A_star_A_op"] = (["image", "sensitivity_map", "sampling_mask"], asa_builder)
-    terms["b_op_t"] = body_term(pg.find_def(tree5, "ConjGrad.B_op", path5), path5, inl3)
+    terms["a_star_t"] = _term(ctx, tree5, path5, "ConjGrad._A_star_op", hooks)
+    terms["a_star_a_t"] = _term(ctx, tree5, path5, "ConjGrad._A_star_A_op", hooks)
+    terms["b_op_t"] = _term(ctx, tree5, path5, "ConjGrad.B_op", hooks)
     text = "From DV Require Import Base.OpIR.\nOpen Scope nat_scope.\n" + "".join("Definition %s : oexp := %s.\n" % kv for kv in terms.items())
     return text, terms
+
+
+def _subst(v, table):
+    if v in table:
+        return table[v]
+    if isinstance(v, tuple):
+        return tuple(_subst(x, table) if isinstance(x, tuple) else x for x in v)
+    return v
